@@ -904,15 +904,15 @@ func init() {
 	realRepl := []string{"wasp/distributed (state, sessions, subscriptions, topics, broadcast)", "crdt", "subscriptions trie", "topics trie", "memberlist.TransmitLimitedQueue", "wasp/api protobuf codecs"}
 	stubRepl := []string{"memberlist gossip transport (replaced by direct NotifyMsg/MergeRemoteState calls in simulator order)", "clock of the replicated state (VerifSetClock: per-operation ranks with per-node offsets)", "audit recorder (none-recorder)"}
 	register(&Check{ID: "C08", Level: "exploration", Build: "maporder", Gen: genC08, Run: runRepl, QuickS: 12, ThoroughS: 240,
-		Rule:   "a case = mutator history on 1-3 origin replicas with offset clocks + one delivery plan (permutation, duplicates, batches, NotifyMsg or MergeRemoteState) per receiver; non-trivial when >=2 receivers got every update and >=1 key has competing updates; distinct by hash of (history, plans, offsets)",
-		Real:   realRepl, Stub: stubRepl,
+		Rule: "a case = mutator history on 1-3 origin replicas with offset clocks + one delivery plan (permutation, duplicates, batches, NotifyMsg or MergeRemoteState) per receiver; non-trivial when >=2 receivers got every update and >=1 key has competing updates; distinct by hash of (history, plans, offsets)",
+		Real: realRepl, Stub: stubRepl,
 		Assume: []string{"timestamps are unique across nodes (ties between different nodes are not generated)", "receivers are fresh replicas that only merge; origins' own local state is not judged here"}})
 	register(&Check{ID: "C09", Level: "exploration", Build: "maporder", Gen: genC09, Run: runRepl, QuickS: 12, ThoroughS: 240,
-		Rule:   "a case = foreign-peer prefill replicated to A and B, then a history of session/subscription/retained mutators on A; after each op A's queue is drained into B; non-trivial when >=3 steps; distinct by hash of the history",
-		Real:   realRepl, Stub: stubRepl,
+		Rule: "a case = foreign-peer prefill replicated to A and B, then a history of session/subscription/retained mutators on A; after each op A's queue is drained into B; non-trivial when >=3 steps; distinct by hash of the history",
+		Real: realRepl, Stub: stubRepl,
 		Assume: []string{"one clock (A's), strictly increasing; no loss (fault-free twin of C08/C10)"}})
 	register(&Check{ID: "C10", Level: "exploration", Build: "maporder", Gen: genC10, Run: runRepl, QuickS: 12, ThoroughS: 240,
-		Rule:   "a case = interleaved histories on A and B, each gossip batch delivered or lost, then snapshot A->B, B->A, fresh-B or both; non-trivial when >=1 snapshot merge and >=3 steps; distinct by hash of the history",
-		Real:   realRepl, Stub: stubRepl,
+		Rule: "a case = interleaved histories on A and B, each gossip batch delivered or lost, then snapshot A->B, B->A, fresh-B or both; non-trivial when >=1 snapshot merge and >=3 steps; distinct by hash of the history",
+		Real: realRepl, Stub: stubRepl,
 		Assume: []string{"clocks of A and B are synchronised and strictly increasing (skew is C08's subject)"}})
 }
